@@ -6318,7 +6318,10 @@ class BlockView:
 
         name = "blocks-" + tokenize(self._array, index)
 
-        new_keys = self._array._key_array[index]
+        # One axis per axis of the array plus the axis of the key's components
+        # (``__dask_keys__`` of a 0-d array wraps its single key in a list)
+        key_array = self._array._key_array.reshape(self._array.numblocks + (-1,))
+        new_keys = key_array[index]
 
         chunks = tuple(
             tuple(np.array(c)[i].tolist()) for c, i in zip(self._array.chunks, index)
